@@ -1,5 +1,6 @@
 import PnVerif.Props.C04
 import PnVerif.Lemmas.LayoutLemmas
+import PnVerif.Lemmas.PostPass
 /-
   C03 — files written conform to the classic CDF-1/2/5 format specification.
   Models: Model/Layout.lean (NC_begins, alignment precedence), Model/Header.lean (writer, header
@@ -72,6 +73,36 @@ theorem history_wf (fmt : Fmt) (ps : List Phase) (steps : List Step)
     ∀ s ∈ steps, LayoutWF s.xsz s.vars s.al s.old s.L :=
   runHistory_wf fmt ps [] 0 none steps (fun v hv => by cases hv) hlen (fun _ o ho => by cases ho) h
 
+/-! ### the header extent reported after ncmpi_open (finding F19)
+
+  Full-strength statement: after opening any file, the reported header extent
+  (ncmpi_inq_header_extent = ncp->begin_var) is at least the header size.  It is FALSE of the
+  faithful model — and of the real library — for files without variables: compute_var_shape returns
+  early and leaves begin_var = 0.  The harness replays the witness on the real library on every run. -/
+def reportedExtent_Statement : Prop :=
+  ∀ (file : Bytes) (h : Hdr) (info : Info), decodeWhole file = .ok (h, info) → info.xsz ≤ info.beginVar
+
+/-- the smallest classic file: CDF-1, no dimension, no attribute, no variable (32 bytes) -/
+def emptyFile : Bytes :=
+  [0x43, 0x44, 0x46, 1, 0,0,0,0, 0,0,0,0, 0,0,0,0, 0,0,0,0, 0,0,0,0, 0,0,0,0, 0,0,0,0]
+
+theorem reportedExtent_counterexample : ¬ reportedExtent_Statement := by
+  intro hS
+  have hd : decodeWhole emptyFile = .ok
+      ({ fmt := .cdf1, numrecs := 0, dims := [], gatts := [], vars := [] },
+       { xsz := 32, beginVar := 0, beginRec := 0, recsize := 0, numRecVars := 0, shapes := [], lens := [] }) := by rfl
+  have := hS _ _ _ hd
+  simp at this
+
+/-- with at least one variable the reported extent does cover the header -/
+theorem reportedExtent_partial (file : Bytes) (h : Hdr) (info : Info) (hd : decodeWhole file = .ok (h, info))
+    (hv : h.vars ≠ []) : info.xsz ≤ info.beginVar :=
+  postPass_extent h info (decodeWhole_post file h info hd) hv
+
+example : ∃ info, postPass PnVerif.Props.C04.exampleHdr = .ok info ∧ PnVerif.Props.C04.exampleHdr.vars ≠ [] :=
+  ⟨{ xsz := 168, beginVar := 400, beginRec := 512, recsize := 3, numRecVars := 1, shapes := [[3], [0, 3]], lens := [12, 4] },
+   by rfl, by simp [PnVerif.Props.C04.exampleHdr]⟩
+
 /-! non-vacuity: a new CDF-1 file with two fixed-size and two record variables, default alignment;
     and its redefinition with one more fixed-size variable, v_minfree = 8, r_align = 128 -/
 def exVars : List VarL :=
@@ -105,6 +136,6 @@ example : (runHistory .cdf1 [] 0 none
 
 def obligations : List String := [
   "header_size_is_bytes_written", "written_header_decodes", "alignments_resolved", "begins_wf", "begins_wf_fresh",
-  "begins_wf_schema", "history_wf"
+  "begins_wf_schema", "history_wf", "reportedExtent_counterexample", "reportedExtent_partial"
 ]
 end PnVerif.Props.C03
